@@ -318,6 +318,7 @@ def exprIsString (env : Env) (vars : List (String × Ty)) : Expr → Option Bool
   | .path p => match typeOfPath env vars p with
     | some ty => some (ty == .name "string")
     | none => none
+  | .paren e => exprIsString env vars e      -- parentheses do not change the type
   | _ => some false
 
 /-- the operators whose operands have to be boolean -/
